@@ -208,6 +208,33 @@ static void do_script(const kv& m) {
     run_cmds(id, inst, get(m, "cmds"));
 }
 
+// ------------------------------------------------------------------------------------ spends (--tx / --txin sessions)
+static void do_spend(const kv& m) {
+    // tx=<hexstr of --tx arg> txin=<hexstr of --txin arg> [sel=<n>] flags=<n> [z=1] [pv=<hexstr>] cmds=...
+    std::string id = get(m, "id");
+    Instance inst;
+    std::string a = unhexstr(get(m, "tx")), b = unhexstr(get(m, "txin"));
+    try {
+        if (!inst.parse_transaction(a.c_str(), true)) { fprintf(OUT, "R %s txfail\n", id.c_str()); return; }
+        if (!inst.parse_input_transaction(b.c_str(), (int)geti(m, "sel", -1))) { fprintf(OUT, "R %s txinfail\n", id.c_str()); return; }
+    } catch (const std::exception& ex) { fprintf(OUT, "R %s txexn\n", id.c_str()); return; }
+    if (m.count("pv")) {
+        std::string pv = unhexstr(get(m, "pv"));
+        if (!inst.parse_pretend_valid_expr(pv.c_str())) { fprintf(OUT, "R %s pvrefused\n", id.c_str()); return; }
+    }
+    if (!inst.configure_tx_txin()) { fprintf(OUT, "R %s refused\n", id.c_str()); return; }
+    if (!inst.setup_environment((unsigned)geti(m, "flags"))) {
+        fprintf(OUT, "R %s setupfail err=%d\n", id.c_str(), (int)inst.error);
+        return;
+    }
+    inst.env->allow_disabled_opcodes = geti(m, "z") != 0;
+    fprintf(OUT, "R %s cfg sv=%d idx=%lld vout=%lld amount=%lld pre=%d annex=%d\n", id.c_str(), (int)inst.sigver, (long long)inst.txin_index, (long long)inst.txin_vout_index,
+            (long long)inst.amounts[inst.txin_index], inst.has_preamble ? 1 : 0, inst.execdata.m_annex_init ? (inst.execdata.m_annex_present ? 1 : 0) : -1);
+    dump_env(id, 0, 1, inst);
+    run_cmds(id, inst, get(m, "cmds"));
+}
+
+
 // ------------------------------------------------------------------------------------ values / btcc
 static void do_btcc(const kv& m) {
     // toks=<hexstr,hexstr,...> : exactly btcc's main
@@ -329,6 +356,7 @@ static void run_case(const std::string& line) {
     else if (kind == "snv") do_snv(m);
     else if (kind == "script") do_script(m);
     else if (kind == "btcc") do_btcc(m);
+    else if (kind == "spend") do_spend(m);
     else if (kind == "tx") do_tx(m);
     else if (kind == "tapcommit") do_tapcommit(m);
     else if (kind == "inl") do_inl(m);
